@@ -193,7 +193,7 @@ CHECKS.update({
                  "e2image -r, -Q, -Q then -r, and -ra.  The source sees zero mutating events; every block of the independently computed metadata set "
                  "is byte-identical in the raw image; qcow2 -> raw equals the direct raw image; e2fsck -fn and dumpe2fs give the same results on image "
                  "and source; the all-data image has the same tree digest and differs only in blocks nothing owns; an output write failure ends in a "
-                 "non-zero status.  Sampling."),
+                 "non-zero status.  Sampling.  The all-data flavour of the round trip (-Qa, then -r) is compared with the -ra image as well."),
         "note": "Trusted: ref/refext4.py owner_map(); the metadata set demanded is a subset of what e2image documents to copy.",
     },
 })
